@@ -43,7 +43,7 @@ def probes(rng, strings):
     return sorted(out)
 
 
-def check_expressions(ctx, case, arg, opts, rexes):
+def check_expressions(ctx, case, arg, opts, rexes, pruned=False):
     want = R.cleaned(arg, opts)
     strings = list(want.keys())
     if len(rexes) != len(set(rexes)):
@@ -118,6 +118,57 @@ def run(ctx):
                     re.sub(r'(?<!\\)[()]', '', p.replace('\\\\', '\0\0')).replace('\0\0', '\\\\'):
                 ctx.fail(dict(case, tagged=t, untagged=p), 'tagged %r differs from untagged %r by more than parentheses' % (t, p))
             ctx.cov['evaluations'] += len(ps)
+        # ---- max_patterns / min_strings_per_pattern: pruning only removes expressions, and removes the right ones.
+        # Every supplied example counts (with its repeats) for the first returned expression that matches it; an
+        # expression is dropped exactly when it counts fewer than min_strings_per_pattern strings, or when more than
+        # max_patterns expressions count more (the same run without the two settings says what there was to prune).
+        if len(rexes) >= 2 and (not size or seed is not None) and rng.random() < 0.6:
+            kmin = rng.choice([1, 2, 2, 3])
+            mmax = rng.choice([None, None, 1, 2, 3])
+            if kmin > 1 or mmax is not None:
+                popts = dict(opts, min_strings_per_pattern=kmin)
+                if mmax is not None:
+                    popts['max_patterns'] = mmax
+                pcase = dict(case, opts=popts)
+                z, zrec = M.run_impl(arg, popts, size, seed)
+                ctx.count(repr(pcase), True)
+                ctx.bump('pruning.min%d.max%s' % (kmin, mmax))
+                if isinstance(z, Exception):
+                    ctx.fail(pcase, 'Extractor raised %s with pruning settings' % type(z).__name__)
+                else:
+                    prex = list(z.results.rex) if z.results else []
+                    check_expressions(ctx, pcase, arg, popts, prex, pruned=True)
+                    cases.append((pcase, arg, popts, size, z, zrec))
+                    wc = R.cleaned(arg, opts)
+                    credit = [0] * len(rexes)
+                    ok_ = True
+                    for s_, n_ in wc.items():
+                        for j_, r_ in enumerate(rexes):
+                            try:
+                                hit = R.matches(r_, s_)
+                            except re.error:
+                                ok_ = False
+                                break
+                            if hit:
+                                credit[j_] += n_
+                                break
+                    if ok_:
+                        keep = [j_ for j_ in range(len(rexes)) if credit[j_] >= kmin] if kmin > 1 else list(range(len(rexes)))
+                        ambiguous = False
+                        if mmax is not None and len(rexes) > mmax:
+                            ranked = sorted(range(len(rexes)), key=lambda j_: -credit[j_])
+                            top = set(ranked[:mmax])
+                            # (which of several expressions with equal counts goes is not specified)
+                            ambiguous = mmax < len(ranked) and credit[ranked[mmax - 1]] == credit[ranked[mmax]]
+                            keep = [j_ for j_ in keep if j_ in top]
+                        want_p = [rexes[j_] for j_ in keep]
+                        if not ambiguous and prex != want_p:
+                            cls_ = None
+                            if opts.get('dialect', 'portable') in ('portable', 'grep') and \
+                                    any(re.match(r'\d', ch) and not ('0' <= ch <= '9') for s_ in wc for ch in s_):
+                                cls_ = 'c13-portable-digits'    # the returned text no longer matches what was counted
+                            ctx.fail(pcase, finding=cls_, what='with min_strings_per_pattern=%r max_patterns=%r the result is %r; without them it is %r '
+                                     'with %r supplied strings each, so %r should remain' % (kmin, mmax, prex, rexes, credit, want_p))
         if len(ctx.cov['samples']) < 3:
             ctx.sample({'case': case, 'rex': rexes, 'other_tagging': orex})
     M.compare_with_model(ctx, cases)
